@@ -107,6 +107,63 @@ func runC20(p *Prog, r *Report) {
 		r.Check(encW != nil && bodyW != nil && instrIndex(encW.In) < instrIndex(bodyW.In), R, "header-then-whole-body", pm.Pos(), "tag+length, then the whole body", "the msgpack record is not (tag+length) followed by the whole message body")
 	}
 
+	// every message taken off the socket is printed before anything that can fail or end the
+	// loop: between a successful RecvMsg and the printMsg of its message there is no other
+	// socket operation and no return
+	{
+		R := "C20.12/printed-before-anything-else"
+		r.Describe(R, "in every macat loop, a message that RecvMsg returned without error is handed to printMsg before any other socket operation and before any return: a reply that cannot be sent, or an early exit, must not swallow a message that crossed the socket")
+		n := 0
+		for _, fn := range p.Funcs {
+			if rel, ok := p.FuncRel(fn); !ok || rel != "macat" || strings.HasSuffix(p.Fset.Position(fn.Pos()).Filename, "_test.go") {
+				continue
+			}
+			EachInstr(fn, func(in ssa.Instruction) {
+				call, ok := in.(*ssa.Call)
+				if !ok || !call.Call.IsInvoke() || call.Call.Method.Name() != "RecvMsg" {
+					return
+				}
+				n++
+				errOK := Desc(call) + "#1 == nil"
+				bad := ""
+				seen := map[*ssa.BasicBlock]bool{}
+				var walk func(b *ssa.BasicBlock, from int)
+				walk = func(b *ssa.BasicBlock, from int) {
+					for i := from; i < len(b.Instrs) && bad == ""; i++ {
+						x := b.Instrs[i]
+						if c := CallOf(x); c != nil {
+							if sc := c.StaticCallee(); sc != nil && sc.Name() == "printMsg" {
+								return
+							}
+							if c.IsInvoke() && (c.Method.Name() == "SendMsg" || c.Method.Name() == "RecvMsg" || c.Method.Name() == "Send" || c.Method.Name() == "Recv" || c.Method.Name() == "Close") {
+								if hasAtom(p.GuardStrings(x), errOK) {
+									bad = c.Method.Name() + " at " + p.InstrPos(x)
+								}
+								return
+							}
+						}
+						if _, isRet := x.(*ssa.Return); isRet {
+							if hasAtom(p.GuardStrings(x), errOK) {
+								bad = "the return at " + p.InstrPos(x)
+							}
+							return
+						}
+					}
+					for _, s := range b.Succs {
+						if !seen[s] {
+							seen[s] = true
+							walk(s, 0)
+						}
+					}
+				}
+				walk(in.Block(), instrIndex(in)+1)
+				r.Check(bad == "", R, p.FuncName(fn)+"/"+Desc(call), p.InstrPos(in), "printed first", "after a successful RecvMsg the loop reaches "+bad+" before the message was printed: when that operation fails (send timeout, closed socket) or returns, a message macat has taken off the socket never appears in the output")
+			})
+		}
+		r.Count("c20.recv_sites", n)
+		r.Floor(R, "c20.recv_sites", 3)
+	}
+
 	if pm.OK() {
 		R := "C20.8/one-record-per-message"
 		r.Describe(R, "printMsg produces a record for EVERY received message: the only return that skips the writer's Flush is the one for --format=no (a zero-length message is still an empty line / an empty bin object)")
